@@ -25,8 +25,10 @@ ASSUME TLCSet(1, {}) /\ TLCSet(2, {})
 
 Matching(st, lab) == {CloseTau(m.s) : m \in {m \in ObsMoves(st) : m.lab = lab}}
 
+\* exactly the declared results were stored: same names, same values
 VarsAgree(st, e) ==
-  \A v \in DOMAIN st.vars : v \in DOMAIN e.vars /\ e.vars[v] = st.vars[v]
+  /\ DOMAIN e.vars = DOMAIN st.vars
+  /\ \A v \in DOMAIN st.vars : e.vars[v] = st.vars[v]
 
 \* at the end of a run the engine must have produced every observable the
 \* game enables, report completion iff the game is complete, hold exactly
@@ -53,10 +55,25 @@ StepSet0(st, e) ==
   CASE e.ev = "started" -> IF e.ok THEN {st} ELSE {}
     [] e.ev = "req"     -> Matching(st, Lab("req", e.node, e.occ))
     [] e.ev = "end"     -> Matching(st, Lab("end", e.node, 0))
-    [] e.ev = "error"   -> IF e.kind = "noflow" THEN Matching(st, Lab("error", e.node, 0)) ELSE {}
+    [] e.ev = "error"   -> IF e.kind = "noflow" THEN Matching(st, Lab("error", e.node, 0))
+                           ELSE IF e.kind = "taskexec" THEN Matching(st, Lab("taskerr", e.node, 0))
+                           ELSE {}
     [] e.ev = "cease"   -> Matching(st, Lab("cease", "", 0)) \cup Matching(DropErr(st), Lab("cease", "", 0))
     [] e.ev = "ans"     ->
-         {CloseTau(AnswerOK(st, t, e.vars)) : t \in {t \in ReqToks(st) : t.at = e.node /\ t.occ = e.occ}}
+         {CloseTau(AnswerAny(st, t, e.vars, e.kind, e.n)) : t \in {t \in ReqToks(st) : t.at = e.node /\ t.occ = e.occ}}
+    \* a candidate payload of a set of concurrently issued first answers
+    [] e.ev = "cand"    ->
+         {[st EXCEPT !.tok = AddToks(DelTok(@, t), {[t EXCEPT !.cands = @ \cup {e.vars}]})]
+            : t \in {t \in ReqToks(st) : t.at = e.node /\ t.occ = e.occ}}
+    \* the concurrent answers are issued: exactly one of them takes effect
+    [] e.ev = "ansc"    ->
+         UNION {{CloseTau(AnswerOK(st, t, pl)) : pl \in t.cands}
+                  : t \in {t \in ReqToks(st) : t.at = e.node /\ t.occ = e.occ}}
+    \* a further answer to an already answered request: no effect whatsoever
+    [] e.ev = "again"   ->
+         IF /\ e.node \in DOMAIN st.reqn /\ e.occ <= st.reqn[e.node]
+            /\ ~\E t \in ReqToks(st) : t.at = e.node /\ t.occ = e.occ
+         THEN {st} ELSE {}
     [] e.ev = "wait"    -> IF WaitOK(st, e) THEN {st} ELSE {}
     [] e.ev = "fin"     -> IF FinOK(st, e) THEN {st} ELSE {}
     [] e.ev = "timeout" -> {st}
